@@ -26,6 +26,7 @@ CLAIMS = {
  "C16": ("C16 (interleave_independent): for any number of result-iterator cursors and ANY schedule of next() calls, what iterator i sees is the prefix of its solitary run (induction on the schedule), abandoned iterators included; premise 'nothing shared is written' is the regenerated effect table. Real code: every interleaving of k<=3 live iterators up to the combined result length (enumerated or sampled). Threads are a stress test under a minimal switch interval, not proved (GIL scheduling is outside any model).", "§7 C16"),
  "C18": ("C18_boundary/complete/raise/steps for the deterministic traversal on finite trees: raises JSONPathRecursionError iff container nesting exceeds the limit, otherwise visits exactly the input node and its container descendants in pre-order, work bounded by document size. Partial: cyclic data, nondeterministic mode and the interpreter stack are explored on the real code, not proved.", "§7 C18"),
  "C19": ("C19_linecol: Token.position (count/rfind over the query) is the line/column of the offset for every text and offset; C19_offset: every JSONPathError compile() raises carries a token whose offset lies in [0, len] (lexer invariant + a Hoare logic over the token stream and the 14 parser functions); C19_tokens. Tie B: printed line/column vs an independent scan on multi-line rejected queries.", "§7 C19"),
+ "C20": ("C20_compile_errors/C20_evaluate_errors/C20_hierarchy_covered/C20_wiring: about the handler tables regenerated from cli.py on every run — for every class of the JSONPath exception hierarchy and for JSONDecodeError/UnicodeDecodeError, the enclosing try has a clause that catches it, re-raises only under --debug, writes one stderr line and exits 1 before any output; the two try blocks wrap compile and load+find, the dump comes after both (kernel evaluation over the finite tables). Partial by construction: argparse, json.load/json.dump, files and process exit are modelled, not verified; explored by running the real CLI in-process and as subprocesses over every option combination.", "§7 C20"),
 }
 
 def main():
